@@ -70,8 +70,9 @@ func runC10(ctx *Ctx) error {
 	}
 	defer os.RemoveAll(root)
 	mids := []string{"AAA1", "AAA", "B2", "A-X", "ZZZZZZZZZZZZ", "A.B", "B2.b2f"}
-	rcpts := []string{"LA1B", "la5nta", "someone@example.org", "LA1B@winlink.org"}
-	fwsets := [][]string{nil, {"LA1B"}, {"LA5NTA", "LA1B"}, {"la1b"}, {"N0CALL"}, {"LA1B", "LA1B"}, {"LA1B", "la1b@winlink.org", "N0CALL"}}
+	rcpts := []string{"LA1B", "la5nta", "someone@example.org", "LA1B@winlink.org", "Skipper@Boat.org"}
+	fwsets := [][]string{nil, {"LA1B"}, {"LA5NTA", "LA1B"}, {"la1b"}, {"N0CALL"}, {"LA1B", "LA1B"}, {"LA1B", "la1b@winlink.org", "N0CALL"},
+		{"SomeOne@Example.ORG"}, {"skipper@boat.org", "LA1B"}, {"smtp:someone@example.org"}}
 	var lines, impl []string
 	var cases []interface{}
 	runHistory := func(id int, ops []string, exec func(h **mailbox.DirHandler, dir string, i int) string) {
